@@ -99,8 +99,13 @@ def run(cs, counters, script=None):
         is_file = node is not None and node.kind == 'file' and node.cid is not None
         oldlen = model.contents[node.cid].length if is_file else None
         expect_ok = is_file and ((oldlen + 2047) // 2048 == (newlen + 2047) // 2048)
+        src_fp = io.BytesIO(newdata)
+        if dseed % 3 == 0:
+            # a source that was just filled (or read before): like add_fp, the call takes the
+            # contents from the start of the file object wherever its position is
+            src_fp.seek(0, 2)
         try:
-            iso.modify_file_in_place(io.BytesIO(newdata), newlen, target)
+            iso.modify_file_in_place(src_fp, newlen, target)
             ok = True
             exc = None
         except Exception as e:
@@ -156,6 +161,34 @@ def run(cs, counters, script=None):
         dec = ecma119.decode(after)
         for kk, d in dec.all_problems():
             vio.append({'key': 'invalid-after:%s' % kk, 'detail': d})
+        # every directory record of the file (each of its names, in each tree) carries the new length
+        # and leads to the new bytes; every other record is what it was
+        dec_b = dec_before['ecma']
+        for nsname, tb, ta in (('iso', dec_b.pvd, dec.pvd), ('joliet', dec_b.joliet, dec.joliet)):
+            if tb is None or ta is None:
+                continue
+            mine = {p for ns_, p in names if ns_ == nsname}
+            if mine and not (mine & set(tb.tree)):
+                # (names below a relocated directory are decoded at their physical place)
+                counters['records_skipped_relocated'] = counters.get('records_skipped_relocated', 0) + 1
+                continue
+            own_ext = {tb.tree[p].extent for p in mine if p in tb.tree and tb.tree[p].length > 0}
+            mine |= {p for p, n_ in tb.tree.items() if n_.kind == 'file' and n_.length > 0 and n_.extent in own_ext}
+            for pth, nb in tb.tree.items():
+                na = ta.tree.get(pth)
+                if na is None:
+                    vio.append({'key': 'records:%s:lost' % nsname, 'detail': '%s no longer decoded' % pth[:60]})
+                    break
+                if nb.kind != 'file':
+                    continue
+                if pth in mine:
+                    counters['own_records_checked'] = counters.get('own_records_checked', 0) + 1
+                    if na.length != newlen:
+                        vio.append({'key': 'records:%s:own-length' % nsname, 'detail': 'the directory record of %s says %d bytes, expected %d' % (pth[:60], na.length, newlen)})
+                    elif ecma119.read_file(after, na) != newdata:
+                        vio.append({'key': 'records:%s:own-bytes' % nsname, 'detail': 'the directory record of %s does not lead to the new bytes' % pth[:60]})
+                elif (na.length, na.extent) != (nb.length, nb.extent):
+                    vio.append({'key': 'records:%s:other-changed' % nsname, 'detail': '%s: length/extent %r -> %r' % (pth[:60], (nb.length, nb.extent), (na.length, na.extent))})
         if cfg.udf:
             # the UDF side of the bridge too: tags, lengths (information length = what the
             # allocation descriptors map), link structure
